@@ -161,7 +161,7 @@ Definition SInv (s : stream) : Prop := Inv1 s /\ Inv2 s /\ Inv3 s /\ Inv4 s.
 (* what the API call in progress implies for a stream's client-side progress counters *)
 Definition call_ok (c : call) (s : stream) : Prop :=
   match c with
-  | InIdle => c_stop s = CNone /\ c_start s = TNone
+  | InIdle | InStartBusy => c_stop s = CNone /\ c_start s = TNone
   | InStart => c_stop s = CNone /\ c_start s <> TFailed /\ (valid s = false -> c_start s = TNone)
   | InStartFail => (c_start s = TDone \/ c_start s = TFailed \/ c_start s = TNone) /\
                    (valid s = false -> c_stop s = CNone /\ c_start s = TNone)
